@@ -113,6 +113,10 @@ Lost(s) ==
                        !.evs = (IF s.joined THEN <<"leave">> ELSE <<>>) \o <<"disconnect">>,
                        !.done = f.done])
 
+\* a user onLeave that fails (after the default clean-up has run): the session ends exactly as otherwise - state, callbacks,
+\* completions, replies - only the listeners are not told "leave" (the event is fired when the callback returns)
+LeaveRaises(r) == Mk(r.s, [r.re EXCEPT !.evs = SelectSeq(@, LAMBDA v : v # "leave")])
+
 \* ---------------------------------------------------------------- requests (C04)
 \* a request API call: fails fast without a transport, otherwise a fresh id (previous + 1), one message, one pending entry
 Request(s, kind, x, pending) ==
